@@ -147,8 +147,9 @@ class CFG(object):
     def tests(self):
         return [n for n in self.nodes if n.kind == 'test' or (n.kind == 'loop' and isinstance(n.ast, ast.While))]
 
-    def facts_at(self, node):
-        """[(atom_expr, polarity)] holding on every path entry -> node (structural, all paths)"""
+    def facts_at(self, node, skip_nodes=()):
+        """[(atom_expr, polarity)] holding on every path entry -> node (structural, all paths); with skip_nodes: on every path
+        that avoids those nodes (e.g. the paths on which a variable has not been re-defined)"""
         facts = []
         if node is None:
             return facts
@@ -157,7 +158,7 @@ class CFG(object):
                 continue
             for lab in ('T', 'F'):
                 # node unreachable once the `lab` edge of t is cut  ==> every path takes that edge
-                if node not in self.reach_from(self.entry, skip_edges={(t, lab)}):
+                if node not in self.reach_from(self.entry, skip_edges={(t, lab)}, skip_nodes=skip_nodes):
                     facts += atoms(t.ast.test, lab == 'T')
         return facts
 
